@@ -186,9 +186,11 @@ def load_known(property_id: str) -> list[dict]:
 
 
 def match_known(kind: str, known_kinds) -> bool:
+    """Exact match, or shell-style match when the listed kind contains '*' (only '*' is special)."""
     for k in known_kinds:
-        if k.endswith('*'):
-            if kind.startswith(k[:-1]):
+        if '*' in k:
+            import re
+            if re.fullmatch('.*'.join(re.escape(part) for part in k.split('*')), kind):
                 return True
         elif kind == k:
             return True
